@@ -21,7 +21,9 @@ import PegVerif.Model.Analysis
       incremented at the same place where the mark is tested), so only the marks are modelled.
   * `grammarDiags` = the calls of `t.warn` in `Compile`, in order: the `checkRecursion` closure
       (every `TypeRule` of the tree in order, appended rules included), then the emission loop at the
-      end (`used but not defined` for a rule whose body is `TypeNil` unless it is called `PegText`,
+      end (`used but not defined` for a rule whose body is `TypeNil` if `t.referenced` has its name
+      — `link` records there the name of every `TypeName` node, so the only rule with a `TypeNil`
+      body that is skipped is the `PegText` of a grammar that captures and never refers to it —,
       `defined but not used` for any other rule without `rulesCount` entry).
       The two `wg.Go` closures share no data (`countRules` writes `t.rulesCount`, `checkRecursion`
       writes `t.werr`), so their interleaving is irrelevant.
@@ -166,15 +168,15 @@ def Diag.render : Diag → String
   | .undefinedRule n => "rule '" ++ n ++ "' used but not defined"
   | .unusedRule n => "rule '" ++ n ++ "' defined but not used"
 
-/-- Emission loop, one `TypeRule` element. -/
-def emitDiag (reached : List String) (r : Rule) : Option Diag :=
+/-- Emission loop, one `TypeRule` element; `referenced` = keys of `t.referenced`. -/
+def emitDiag (referenced reached : List String) (r : Rule) : Option Diag :=
   match r.body with
-  | .nil => if r.name = "PegText" then none else some (.undefinedRule r.name)
+  | .nil => if referenced.contains r.name then some (.undefinedRule r.name) else none
   | _ => if reached.contains r.name then none else some (.unusedRule r.name)
 
-/-- All calls of `t.warn` for a linked grammar, in order. -/
-def grammarDiags (G : Grammar) : List Diag :=
-  (recWarnings G).map .leftRec ++ G.rules.filterMap (emitDiag (reachedNames G))
+/-- All calls of `t.warn` for a linked grammar, in order; `referenced` = keys of `t.referenced`. -/
+def grammarDiags (G : Grammar) (referenced : List String) : List Diag :=
+  (recWarnings G).map .leftRec ++ G.rules.filterMap (emitDiag referenced (reachedNames G))
 
 structure DiagResult where
   dupError : Option String      -- error returned by the first pass; nothing else happens then
@@ -188,7 +190,7 @@ def diagnostics (rules : List Rule) : DiagResult :=
   match L.dup with
   | some n => { dupError := some ("rule '" ++ n ++ "' defined more than once"), diags := [], strictFails := true }
   | none =>
-    let ds := grammarDiags L.G
+    let ds := grammarDiags L.G L.referenced
     { dupError := none, diags := ds, strictFails := !ds.isEmpty }
 
 /-- The warning lines (without the `warning: ` prefix `t.warn` adds), in order. -/
